@@ -274,6 +274,18 @@ func (c *Check) fixedC11() []*plan.Plan {
 			}
 		}
 	}
+	// (3c) pages whose non-ASCII text only starts after a long ASCII prefix, at sizes around the numbers the source mentions
+	for k, sz := range gen.PrefixSizes(1000, 100000, 10) {
+		d := gen.AsciiPrefixDoc(uint64(0xa5c1+k), sz+100)
+		c.noteDoc(d)
+		p := c.newPlan("delivery", run, uint64(4000+k), "bubble")
+		run++
+		p.Docs = []plan.Doc{plan.NewDoc("d0", d.Bytes, d.Origin)}
+		p.Options = []plan.Opt{optWithURL("o0", d.URL, 0, 0)}
+		p.Tasks = [][]plan.Op{{{Op: "File", Doc: "d0", Opt: "o0"}, {Op: "Reader", Doc: "d0", Opt: "o0", Reader: &plan.ReaderPlan{Chunks: []int{4096}, FaultAt: -1}},
+			{Op: "File", Doc: "d0", Opt: "o0", FS: &plan.FSPlan{Kind: "short", At: 5}}}}
+		out = append(out, p)
+	}
 	// (4) goroutine release order inside the charset detector
 	tie := []gen.GenDoc{gen.ChardetTie()}
 	nhb := 6
